@@ -5,13 +5,13 @@ THEOREM_OF = {
     "un-inverse": "C12_inverse_cache_transparent",
     "anti-inverse": "C12_inverse_cache_transparent",
     "under-inverse": "C12_inverse_cache_transparent",
-    "un-inverse:spans-len": "C12_inverse_cache_spans_len_refuted",
-    "anti-inverse:spans-len": "C12_inverse_cache_spans_len_refuted",
-    "under-inverse:spans-len": "C12_inverse_cache_spans_len_refuted",
+    "un-inverse:spans-len": "C12_inverse_cache_store_transparent",
+    "anti-inverse:spans-len": "C12_inverse_cache_store_transparent",
+    "under-inverse:spans-len": "C12_inverse_cache_store_transparent",
     "zip-fast-fn": "C12_zip_cache_transparent",
     "purity": "C12_purity_cache_refuted",
     "sig": "C12_sig_cache_sufficient",
-    "pre-eval": "C12_pre_eval_cache_sufficient",
+    "pre-eval": "C12_pre_eval_cache_backend_refuted",
 }
 SENTINEL = 4294967295
 
@@ -30,6 +30,7 @@ def run(r):
         "no collision of the 64-bit RapidHasher hash among the keys of a history (premise of C12_memo_transparent_hashed; "
         "also Function.hash identifies the body: wf_body)",
         "a Function handle's sig field is determined by its body hash (wf_sig; add_function computes both from the body)",
+        "the comptime cache is only claimed sufficient for nodes that do not read the system backend (Normal mode admits no others; Lsp mode does: open finding)",
         "nodes reaching the comptime cache contain no CallGlobal (globals = []): matches_nodes admits only constants, which compile to Push",
         "outcomes that differ between two fresh runs (random, time) or hit the execution limit are excluded from the comparison",
     ]
@@ -153,7 +154,7 @@ def run(r):
         if key in seen:
             continue
         seen.add(key)
-        cache = key.split(":")[-1].split("/")[0].split("+")[0]
+        cache = (key[6:] if key.startswith("cache:") else key).split("/")[0].split("+")[0]
         r.violation(key, "in one thread, after %s the program %s gives %s; in a fresh thread it gives %s" %
                     (json.dumps(v["history"][:-1], ensure_ascii=False), json.dumps(v["program"], ensure_ascii=False), v["hist"][:300], v["fresh"][:300]),
                     {"history": v["history"], "program": v["program"], "in_history": v["hist"], "fresh_thread": v["fresh"], "family": v.get("family"),
@@ -161,7 +162,7 @@ def run(r):
                     theorem=THEOREM_OF.get(cache, "C12_memo_transparent"))
         r.sample({"history": v["history"], "in_history": v["hist"][:200], "fresh_thread": v["fresh"][:200], "key": key})
     # the refutation theorems speak about the current code: their real witnesses must still fail
-    expected = {"cache:purity/error": "C12_purity_cache_refuted", "cache:un-inverse:spans-len/position": "C12_inverse_cache_spans_len_refuted"}
+    expected = {"cache:purity/error": "C12_purity_cache_refuted", "cache:pre-eval/lsp-backend": "C12_pre_eval_cache_backend_refuted"}
     stale = [k for k in expected if k not in s["violation_counts"]] if rc == 0 else []   # (a search that died is incomplete)
     r.coverage["refutation_witnesses_confirmed"] = [k for k in expected if k in s["violation_counts"]]
     if stale:
